@@ -1133,11 +1133,34 @@ fn run_ops_inner(settings: &SettingsDesc, ops: &[Op], faults_mode: bool, attribu
                         s.extra_schemas.push(schema.clone());
                     }
                     if let Op::AddRootSchema { doc, .. } = &src {
-                        if doc.get("title").is_some() {
+                        if let Some(title) = doc.get("title").and_then(|t| t.as_str()) {
                             let mut root = doc.clone();
                             if let Some(o) = root.as_object_mut() {
                                 o.remove("definitions");
                             }
+                            // the model knows the root as a pseudo-definition, so that a
+                            // self reference (`#`) counts as a cycle
+                            fn rewrite(v: &mut Value, to: &str) {
+                                match v {
+                                    Value::Object(o) => {
+                                        if o.get("$ref") == Some(&Value::String("#".into())) {
+                                            o.insert("$ref".into(), Value::String(to.to_string()));
+                                        }
+                                        for x in o.values_mut() {
+                                            rewrite(x, to);
+                                        }
+                                    }
+                                    Value::Array(a) => a.iter_mut().for_each(|x| rewrite(x, to)),
+                                    _ => {}
+                                }
+                            }
+                            let pseudo = format!("#root#{title}");
+                            let mut modelled = root.clone();
+                            rewrite(&mut modelled, &format!("#/definitions/{pseudo}"));
+                            if let Some(o) = modelled.as_object_mut() {
+                                o.remove("default");
+                            }
+                            s.defs.insert(pseudo, modelled);
                             s.extra_schemas.push(root);
                         }
                     }
